@@ -10,7 +10,8 @@ from checks import parsecommon as pc
 
 PROOF_MODULES = []   # coq/Parse/*.v are compiled directly with coqc by parsecommon.build_coq (see ORDER there)
 OBLIGATIONS = [
-    "C17/P_grammar_conventional.v", "C17/P_maximal_munch.v", "C17/P_prec_table.v",
+    "C17/P_grammar_conventional.v", "C17/P_grammar_complete.v", "C17/P_grammar_unambiguous.v",
+    "C17/P_maximal_munch.v", "C17/P_prec_table.v",
     "C17/P_parse_numeric_decimal.v", "C17/P_parse_numeric_float.v", "C17/P_lex_numeric.v",
     "C17/P_lex_slices.v", "C17/P_nonvacuous.v",
 ]
